@@ -177,3 +177,11 @@ Definition w_rootbld2 : wobs :=
        (MkKS [line "21" "1" "/mnt" "ext4" "/dev/sdb" rw] 40 5).
 Example C04_refuted_build_root_slash : c04 (mkcfg "../../..") w_rootbld2 (CRemove (bs "a") true) [] = false.
 Proof. vm_compute. reflexivity. Qed.
+
+(* the configuration-level condition that yields proper, pairwise unrelated build roots *)
+From LC Require Import Proofs.BuildPathP.
+Example cfg_sane_sat : cfg_sane cfg0 = true.
+Proof. vm_compute. reflexivity. Qed.
+Example cfg_sane_excludes :
+  map cfg_sane [mkcfg "build/"; mkcfg "../../.."; mkcfg "../shared"; mkcfg "overlayfs/x"] = [false; false; false; true].
+Proof. vm_compute. reflexivity. Qed.
